@@ -69,6 +69,7 @@ fn slot_case(rng: &mut Rng, out: &mut CaseOut, multiround: bool) {
     let slot_api = Api::Rate(rate, *rng.pick(&[EngineKind::NoSimd, EngineKind::Naive]));
     // poison is armed throughout: padding lanes and the unused half of the
     // final block then hold junk instead of the zeros of a fresh buffer
+    let fills0 = crate::hooks::poison_fills();
     let _p = Poison::new(true, rng.next_u64());
 
     let rounds = if multiround { rng.range(2, 4) } else { 1 };
@@ -197,4 +198,5 @@ fn slot_case(rng: &mut Rng, out: &mut CaseOut, multiround: bool) {
         out.nontrivial_key(&format!("{k}/{r}/{}/{size}/{}", rate.name(), api.name()));
         out.sample = Some(jobj(&[("config", jstr(&desc))]));
     }
+    out.add("working-memory poison fills (hook H1)", crate::hooks::poison_fills() - fills0);
 }
